@@ -371,6 +371,11 @@ func (set *Set) add(hosts ...*Host) {
 		return
 	}
 	for _, host := range hosts {
+		// The address may already be present with another object or type,
+		// drop the stale host first so it is no longer reported as healthy.
+		if old, ok := set.all[host.Addr]; ok && old != host {
+			set.remove(old)
+		}
 		set.all[host.Addr] = host
 	}
 	set.addToHealthy(hosts...)
